@@ -273,6 +273,8 @@ def qstr(s):
     return "'" + s.replace("\\", "\\\\").replace("'", "\\'").replace("{", "\\{").replace("\n", "\\n") + "'"
 
 
+CORE_NAMES = {"deep_copy": "koto.deep_copy"}     # core functions that are not in the prelude
+
 ATOMS = {"null", "bool", "int", "flt", "str", "id", "list", "tuple", "map", "istr", "idx", "dot", "core", "mcall",
          "app"}
 
@@ -381,7 +383,7 @@ class Renderer:
         if k == "dot":
             return "%s.%s" % (self.recv(n["c"]), n["n"])
         if k == "core":
-            return "%s(%s)" % (n["f"], ", ".join(self.paren(a) for a in n["args"]))
+            return "%s(%s)" % (CORE_NAMES.get(n["f"], n["f"]), ", ".join(self.paren(a) for a in n["args"]))
         if k == "mcall":
             return "%s.%s(%s)" % (self.recv(n["c"]), n["m"], ", ".join(self.paren(a) for a in n["args"]))
         if k == "app":
@@ -664,7 +666,7 @@ class Renderer:
             if k == "app":
                 head = self.recv(n["f"])
             elif k == "core":
-                head = n["f"]
+                head = CORE_NAMES.get(n["f"], n["f"])
             else:
                 head = "%s.%s" % (self.recv(n["c"]), n["m"])
             args = [self.arg(a) for a in n["args"]]
